@@ -294,18 +294,46 @@ def generate():
     if len(snap) != 1:
         raise P.Untranslatable("_SimpleCallQueue._turn: snapshot-and-clear statement changed")
     loops = [s for s in tb if isinstance(s, ast.For)]
-    if len(loops) < 1 or U(loops[0].target) != "(cb, args, kwargs)" or tb.index(loops[0]) < tb.index(snap[0]):
-        raise P.Untranslatable("_SimpleCallQueue._turn: loop changed")
-    it = U(loops[0].iter)
-    if it == "events":
-        evq_iter = "IterForward"
-    elif it in ("reversed(events)", "events[::-1]"):
-        evq_iter = "IterReverse"
+    isolates = True
+    if not loops:
+        # alternative shape: one try block around the whole loop -- a raising callable ends the batch
+        tries = [s for s in tb if isinstance(s, ast.Try) and any(isinstance(x, ast.For) for x in s.body)]
+        if len(tries) != 1:
+            raise P.Untranslatable("_SimpleCallQueue._turn: loop changed")
+        loops = [x for x in tries[0].body if isinstance(x, ast.For)]
+        if [U(x) for x in loops[0].body] != ["cb(*args, **kwargs)"] or U(loops[0].target) != "(cb, args, kwargs)":
+            raise P.Untranslatable("_SimpleCallQueue._turn: loop body changed")
+        hs = tries[0].handlers
+        requeue = [x for h in hs for x in ast.walk(h) if isinstance(x, ast.Call) and U(x.func) == "self.append"]
+        if len(hs) != 1 or hs[0].type is not None or len(requeue) != 1:
+            raise P.Untranslatable("_SimpleCallQueue._turn: exception handling changed")
+        isolates = False
+        it = U(loops[0].iter)
+        if it == "batch":
+            b = [s for s in tb if isinstance(s, ast.Assign) and U(s.targets[0]) == "batch"]
+            if len(b) != 1 or U(b[0].value) != "iter(events)":
+                raise P.Untranslatable("_SimpleCallQueue._turn: iterates over an unknown batch")
+            it = "events"
+        evq_iter = "IterForward" if it == "events" else None
+        if evq_iter is None:
+            raise P.Untranslatable("_SimpleCallQueue._turn iterates over " + it)
     else:
-        raise P.Untranslatable("_SimpleCallQueue._turn iterates over " + it)
-    lb = loops[0].body
-    if not (len(lb) == 1 and isinstance(lb[0], ast.Try) and [U(s) for s in lb[0].body] == ["cb(*args, **kwargs)"]):
-        raise P.Untranslatable("_SimpleCallQueue._turn: loop body changed")
+        if U(loops[0].target) != "(cb, args, kwargs)" or tb.index(loops[0]) < tb.index(snap[0]):
+            raise P.Untranslatable("_SimpleCallQueue._turn: loop changed")
+        it = U(loops[0].iter)
+        if it == "events":
+            evq_iter = "IterForward"
+        elif it in ("reversed(events)", "events[::-1]"):
+            evq_iter = "IterReverse"
+        else:
+            raise P.Untranslatable("_SimpleCallQueue._turn iterates over " + it)
+        lb = loops[0].body
+        if not (len(lb) == 1 and isinstance(lb[0], ast.Try) and [U(s) for s in lb[0].body] == ["cb(*args, **kwargs)"]
+                and len(lb[0].handlers) == 1 and lb[0].handlers[0].type is None and not lb[0].orelse and not lb[0].finalbody
+                and [U(x) for x in lb[0].handlers[0].body] == ["log.err()"]):
+            raise P.Untranslatable("_SimpleCallQueue._turn: loop body changed")
+    out.append("Definition evq_isolates_exceptions : bool := %s.   (* _SimpleCallQueue._turn: try/except %s *)"
+               % ("true" if isolates else "false", "around each callable" if isolates else "around the whole batch; the rest is queued again"))
     out.append("Definition evq_iter : iter_dir := %s.   (* _SimpleCallQueue._turn: for ... in %s *)" % (evq_iter, it))
     ev = P.find_def(evm, "eventually")
     if "_theSimpleQueue.append(cb, args, kwargs)" not in U(ev):
@@ -317,6 +345,10 @@ def generate():
                       ("eventual.py", "_SimpleCallQueue._turn"), ("eventual.py", "_SimpleCallQueue.flush")},
           files=["eventual.py"])
     frame("_theSimpleQueue", {("eventual.py", "eventually"), ("eventual.py", "flushEventualQueue")})
+    # broker.LoopbackTransport.write = eventually(self.peer.dataReceived, bytes)
+    lw = P.find_def(bro, "LoopbackTransport.write")
+    if [U(x) for x in strip_doc(lw.body)] != ["eventually(self.peer.dataReceived, bytes)"]:
+        raise P.Untranslatable("LoopbackTransport.write changed")
     # LocalReferenceable.callRemote = fireEventually().addCallback(call)
     lcr = P.find_def(ref, "LocalReferenceable.callRemote")
     lsrc = U(lcr)
